@@ -15,6 +15,8 @@ import (
 	"github.com/notaryproject/notation-go"
 	"github.com/notaryproject/notation-go/verifier"
 	pf "github.com/notaryproject/notation-plugin-framework-go/plugin"
+	"github.com/opencontainers/go-digest"
+	ocispec "github.com/opencontainers/image-spec/specs-go/v1"
 	"pgregory.net/rapid"
 
 	"verifharness/internal/envb"
@@ -49,6 +51,10 @@ type Scen struct {
 	// decide anything, whether or not the plugin lists them as processed (finding F17)
 	Filler          string `json:"filler,omitempty"` // "" before after both
 	FillerProcessed bool   `json:"fillerProcessed,omitempty"`
+	// BlobTwin: the verifier also carries a blob policy whose statement has the SAME NAME as the
+	// OCI statement but this (other) level, and the judged envelope is first verified as a blob
+	// under it; statement names are only unique within one document
+	BlobTwin string `json:"blobTwin,omitempty"` // "" strict permissive audit skip
 	// Warm: an earlier verification on the SAME verifier with another envelope (other expiry /
 	// certificate times / attributes); it is not judged and must not influence the judged one
 	Warm *Warm `json:"warm,omitempty"`
@@ -64,7 +70,7 @@ type Warm struct {
 }
 
 func (s *Scen) fp() uint64 {
-	return stats.Fingerprint(s.Level.Key(), s.Level.String(), s.Scheme, s.Format, s.Trust, s.Identity, s.Expiry, s.CertTime, s.Rev, s.Plugin, s.MinVer, s.TIVerdict, s.RVVerdict, s.PluginErr, s.Crit, s.CritInt, s.CapOrder, s.Filler, s.FillerProcessed, fmt.Sprintf("%+v", s.Warm))
+	return stats.Fingerprint(s.Level.Key(), s.Level.String(), s.Scheme, s.Format, s.Trust, s.Identity, s.Expiry, s.CertTime, s.Rev, s.Plugin, s.MinVer, s.TIVerdict, s.RVVerdict, s.PluginErr, s.Crit, s.CritInt, s.CapOrder, s.Filler, s.FillerProcessed, s.BlobTwin, fmt.Sprintf("%+v", s.Warm))
 }
 
 const pluginName = "verif-plugin"
@@ -335,9 +341,22 @@ func realise(s *Scen) (*run, error) {
 			plug.Capabilities = rev
 		}
 	}
+	if s.BlobTwin != "" {
+		twinIDs := []string{ids[s.Identity]}
+		if s.BlobTwin == "skip" {
+			opts.BlobTrustPolicy = kit.BlobDoc("p", kit.Level{Base: "skip"}.SV(""), nil, nil)
+		} else {
+			opts.BlobTrustPolicy = kit.BlobDoc("p", kit.Level{Base: s.BlobTwin}.SV(""), []string{storeType + ":x"}, twinIDs)
+		}
+	}
 	v, err := verifier.NewVerifierWithOptions(ts, opts)
 	if err != nil {
 		return nil, fmt.Errorf("harness: verifier construction failed: %v", err)
+	}
+	if s.BlobTwin != "" {
+		v.VerifyBlob(context.Background(), func(digest.Algorithm) (ocispec.Descriptor, error) { return desc, nil }, env,
+			notation.BlobVerifierVerifyOptions{SignatureMediaType: s.Format, TrustPolicyName: "p"})
+		rev.Calls, plug.VerifyCalls, plug.MetaCalls, mgr.Gets, ts.Calls = nil, nil, 0, nil, nil
 	}
 	if s.Warm != nil {
 		wch := getChain(s.Warm.CertTime)
@@ -507,6 +526,9 @@ func classes(s *Scen, v verdict) []string {
 	if s.Warm != nil {
 		cl = append(cl, "reused-verifier")
 	}
+	if s.BlobTwin != "" {
+		cl = append(cl, "blob-statement-with-same-name", "blob-twin-level="+s.BlobTwin)
+	}
 	if s.Filler != "" {
 		cl = append(cl, "noncritical-attr-"+s.Filler)
 		if !s.FillerProcessed && s.Plugin != "none" {
@@ -588,6 +610,7 @@ func drawScen(rt *rapid.T) *Scen {
 		s.CritInt = rapid.IntRange(0, 2).Draw(rt, "critIntKey") == 0
 	}
 	s.Filler = rp.Pick(rt, "filler", "", "", "", "before", "after", "both")
+	s.BlobTwin = rp.Pick(rt, "blobTwin", "", "", "", "", "strict", "permissive", "audit", "skip")
 	s.FillerProcessed = s.Filler != "" && rapid.Bool().Draw(rt, "fillerProcessed")
 	if rapid.IntRange(0, 3).Draw(rt, "warm") == 0 {
 		s.Warm = &Warm{Expiry: rp.Pick(rt, "wExpiry", "none", "future", "past"), CertTime: rp.Pick(rt, "wCertTime", "valid", "leafexpired", "cafuture"),
